@@ -33,10 +33,10 @@ func main() { Main("c18", runC18) }
 // ---------- the script of one case ----------
 
 type script struct {
-	Family string `json:"family"`
-	Blob   bool   `json:"sign_blob"`
-	MT     string `json:"requested_envelope_type"`
-	KeyID  string `json:"key_id"`
+	Family string  `json:"family"`
+	Blob   bool    `json:"sign_blob"`
+	MT     string  `json:"requested_envelope_type"`
+	KeyID  string  `json:"key_id"`
 	Desc   reqDesc `json:"descriptor"`
 
 	MetaErr bool `json:"metadata_error,omitempty"`
@@ -81,14 +81,14 @@ var (
 // ---------- the scripted plugin ----------
 
 type gsFacts struct {
-	called                         bool
-	keyID                          string
-	chainParse                     bool
-	chainLen                       int
-	sigEmpty, chainValid, sigOK    bool
-	leafAlg                        signature.Algorithm
-	reqKeySpec, reqHash            string
-	chainDER                       [][]byte
+	called                      bool
+	keyID                       string
+	chainParse                  bool
+	chainLen                    int
+	sigEmpty, chainValid, sigOK bool
+	leafAlg                     signature.Algorithm
+	reqKeySpec, reqHash         string
+	chainDER                    [][]byte
 }
 
 type geFacts struct {
@@ -742,17 +742,17 @@ func runC18(a *Args) error {
 		"facts of a plugin call that the signer never made are printed as false",
 	}
 	type fam struct {
-		name   string
-		base   int64
-		quick  int
-		thor   int
-		gen    func(r *Rng, tier string) *script
+		name  string
+		base  int64
+		quick int
+		thor  int
+		gen   func(r *Rng, tier string) *script
 	}
 	fams := []fam{
-		{"envelope-payload", 10000, 1500, 60000, scenPayload},
-		{"envelope-level", 200000, 260, 6000, scenEnvelope},
-		{"raw", 300000, 520, 12000, scenRaw},
-		{"dispatch", 400000, 160, 3000, scenDispatch},
+		{"envelope-payload", 10000, 2400, 60000, scenPayload},
+		{"envelope-level", 200000, 400, 6000, scenEnvelope},
+		{"raw", 300000, 900, 12000, scenRaw},
+		{"dispatch", 400000, 240, 3000, scenDispatch},
 	}
 	emit := func(id int64, s *script) {
 		term, key, nt, ok := runCase(id, s, now)
